@@ -368,10 +368,17 @@ Definition processReady (s : node) (rd : ready) (busy : bool) : list mop :=
   ++ (if sync then syncTail rd                     (* processReadySynchronously finds the pipeline idle *)
       else processReadyAsyncNormal s rd busy).
 
-(* slot.compactLogAt at the slot's applied index, after waitApplyIdle *)
+(* slot.durableAppliedIndex once the queued tasks have run *)
+Definition applied_after (q : list task) (applied : N) : N :=
+  fold_left (fun a t => lastApplied (t_ents t) a) q applied.
+
+(* controlCompactLog: waitApplyIdle, then slot.compactLogAt at the slot's applied index.
+   (compactLogManually skips the snapshot when the stored one already covers the applied index;
+   the model may take it again: same index, same content.) *)
 Definition compactLogAt (s : node) : list mop :=
   drain (v_queue s) ++
-  (if v_applied s =? 0 then [] else [OCompactMark (v_applied s); OCompactSave (v_applied s)]).
+  (let a := applied_after (v_queue s) (v_applied s) in
+   if a =? 0 then [] else [OCompactMark a; OCompactSave a]).
 
 (* Runtime.Close or a killed process: everything volatile is gone; futures that
    the slot still tracks fail (Close) or are never answered (kill): both are
